@@ -119,7 +119,15 @@ def compare_traces(ra, rb, props, oracle, world_a, client=None, compare_draws=Tr
     ia = {r["sid"]: k for k, r in enumerate(ra.recipes)}
     ib = {r["sid"]: k for k, r in enumerate(rb.recipes)}
     sids = align if align is not None else [r["sid"] for r in ra.recipes if r["sid"] in ib]
+    tol0 = tol
     for sid in sids:
+        # every channel with a mixing weight below the library's purity cut may legitimately be
+        # contracted away in one twin only: the tolerance grows with the number of such steps
+        rr_ = ra.recipes[ia[sid]] if sid in ia else None
+        if rr_ is not None and rr_["do"] == "kraus":
+            ws = [rr_["ch"].get("p")] + [q.get("p") for q in rr_["ch"].get("parts", [])]
+            if any(w is not None and w < 1e-5 for w in ws):
+                tol = tol + 2e-6
         if sid not in ia or sid not in ib:
             continue
         ka, kb = ia[sid], ib[sid]
